@@ -72,14 +72,27 @@ func (c *Cache) Commit() (err error) {
 	defer c.changes.removeMU.RUnlock()
 	c.changes.removeAllMU.RLock()
 	defer c.changes.removeAllMU.RUnlock()
+	// recursive removals first: they do not depend on what is below them, and a Commit
+	// that follows a failed one still meets the nodes from before the removal (a node by
+	// node removal below it would be tried on those stale nodes)
+	removedAll := make([]string, 0, len(c.changes.removeAll))
+	for src = range c.changes.removeAll {
+		removedAll = append(removedAll, src)
+	}
+	sort.Strings(removedAll)
+	for _, src = range removedAll {
+		if !c.remoteFS.IsExist(src) {
+			continue
+		}
+		if err = c.remoteFS.RemoveAll(src); err != nil {
+			return err
+		}
+	}
 	// children before their parents ("a/b" sorts after "a"): a directory that was emptied
 	// node by node and then removed must find itself empty in the remote filespace too
-	removed := make([]string, 0, len(c.changes.remove)+len(c.changes.removeAll))
+	removed := make([]string, 0, len(c.changes.remove))
 	for src = range c.changes.remove {
-		removed = append(removed, src)
-	}
-	for src = range c.changes.removeAll {
-		if !c.changes.remove[src] {
+		if !c.changes.removeAll[src] {
 			removed = append(removed, src)
 		}
 	}
@@ -88,17 +101,12 @@ func (c *Cache) Commit() (err error) {
 		if !c.remoteFS.IsExist(src) {
 			continue
 		}
-		if c.changes.removeAll[src] {
-			err = c.remoteFS.RemoveAll(src)
-		} else {
-			if c.remoteFS.IsDir(src) && c.bufferFS.IsDir(src) {
-				// created again as a directory after its removal: the journal is replayed
-				// by every Commit, the directory may already be filled from an earlier one
-				continue
-			}
-			err = c.remoteFS.Remove(src)
+		if c.remoteFS.IsDir(src) && c.bufferFS.IsDir(src) {
+			// created again as a directory after its removal: the journal is replayed
+			// by every Commit, the directory may already be filled from an earlier one
+			continue
 		}
-		if err != nil {
+		if err = c.remoteFS.Remove(src); err != nil {
 			return err
 		}
 	}
